@@ -89,7 +89,7 @@ def gen_random(rng, n):
 
 
 def run(ctx):
-    L = ctx.budget(5, 7)
+    L = ctx.budget3(5, 6, 7)
     cases = []
     for data in gen_exhaustive(L):
         for kws in KWSETS:
